@@ -16,6 +16,7 @@ pub fn instances(tier: &str) -> Vec<String> {
         for n in 5..=6 { for m1 in 0..=1 { for m2 in 0..=2 { sd.push((n, m1, m2)); } } }
         for m2 in 0..=2 { sd.push((4, 2, m2)); }
     }
+    for (n, m1, m2) in [(1usize, 0usize, 0usize), (2, 0, 0), (2, 1, 0), (2, 0, 1), (2, 1, 1)] { v.push(format!("csolve:n={},m1={},m2={}", n, m1, m2)); }
     for (n, m1, m2) in sd {
         v.push(format!("solve:n={},m1={},m2={}", n, m1, m2));
         v.push(format!("det:n={},m1={},m2={}", n, m1, m2));
@@ -50,9 +51,37 @@ fn expect_band(tag: &str, b: &Banded<Sym>, n: usize, m1: usize, m2: usize, f: im
     } } }
 }
 
+/// Complex<f64> entries (derived crate): solve and det against the dense twin
+fn complex_solve(n: usize, m1: usize, m2: usize) {
+    use super::c01::cplx::cdet;
+    use ohsl_sym::{Banded as B2, Cmplx, Vector as V2};
+    let zero = Cmplx::new(z(), z());
+    let mut b = B2::<Cmplx>::new(n, m1, m2, Cmplx::new(Sym::var("padr"), Sym::var("padi")));
+    let mut dense = vec![vec![zero; n]; n];
+    for i in 0..n { for j in 0..n { if in_band(i, j, m1, m2) { let e = Cmplx::new(Sym::var(&format!("ar_{}_{}", i, j)), Sym::var(&format!("ai_{}_{}", i, j))); b[(i, j)] = e; dense[i][j] = e; } } }
+    let rhs: Vec<Cmplx> = (0..n).map(|i| Cmplx::new(Sym::var(&format!("br_{}", i)), Sym::var(&format!("bi_{}", i)))).collect();
+    let d = cdet(&dense);
+    must("complex det", || b.det(), |dd| { prove("complex banded det = dense determinant (real part)", eq(dd.real, d.real)); prove("complex banded det = dense determinant (imaginary part)", eq(dd.imag, d.imag)); });
+    assume(B::or(vec![ne(d.real, z()), ne(d.imag, z())]));
+    match catch(|| b.solve(&V2::create(rhs.clone()))) {
+        Ok(x) => {
+            prove("complex banded solve: length n", if x.size() == n { B::True } else { B::False });
+            if x.size() == n { for i in 0..n {
+                let mut acc = zero;
+                for j in 0..n { acc = acc + dense[i][j] * x[j]; }
+                prove(&format!("complex banded solve: residual row {} (real part)", i), eq(acc.real, rhs[i].real));
+                prove(&format!("complex banded solve: residual row {} (imaginary part)", i), eq(acc.imag, rhs[i].imag));
+                prove(&format!("complex banded solve: x[{}] independent of the padding", i), if x[i].real.mentions("pad") || x[i].imag.mentions("pad") { B::False } else { B::True });
+            } }
+        }
+        Err(s) => must_not_stop("complex banded solve: nonsingular system must be solved", &s),
+    }
+}
+
 pub fn body(inst: &str) {
     let (kind, p) = parse_inst(inst);
     let (n, m1, m2) = (geti(&p, "n"), geti(&p, "m1"), geti(&p, "m2"));
+    if kind == "csolve" { return complex_solve(n, m1, m2); }
     let pad = Sym::var("pad");
     match kind.as_str() {
         "algebra" => {
